@@ -127,6 +127,9 @@ pub struct Node {
     /// Incarnations which have been killed and are winding down.
     pub dying: Vec<Incarnation>,
     pub restarts: u64,
+    /// View / timer deadline of the live incarnation, from its last snapshot.
+    pub view: Option<u64>,
+    pub deadline: time::Deadline,
 }
 
 #[derive(Clone)]
@@ -155,6 +158,7 @@ pub struct Cluster {
     pub panics_seen: usize,
     /// Shutting down: keep stepping even though a violation was recorded.
     pub draining: bool,
+    pub snaps: Rc<std::cell::RefCell<Vec<bft::verif::Snapshot>>>,
 }
 
 pub fn make_committee(cfg: &Cfg) -> Committee {
@@ -220,6 +224,8 @@ impl Cluster {
                 live: None,
                 dying: vec![],
                 restarts: 0,
+                view: None,
+                deadline: time::Deadline::Infinite,
             })
             .collect();
         let adversary = Adversary::new(committee, kit::stream(cfg.seed, "adv"));
@@ -238,6 +244,12 @@ impl Cluster {
             sync_tasks: vec![],
             panics_seen: kit::panics::count(),
             draining: false,
+            snaps: {
+                let snaps: Rc<std::cell::RefCell<Vec<bft::verif::Snapshot>>> = Default::default();
+                let s2 = snaps.clone();
+                bft::verif::install_observer(Some(Rc::new(move |s| s2.borrow_mut().push(s))));
+                snaps
+            },
             cfg,
         }
     }
@@ -272,6 +284,7 @@ impl Cluster {
         let max_payload = self.cfg.max_payload;
         let view_timeout = time::Duration::milliseconds(self.cfg.view_timeout_ms);
         hub.ev(format!("n{i}.{inc} start"));
+        self.nodes[i].view = None;
         self.sched.set_spawn_tag(tag_of(i, inc));
         let done = gtokio::spawn(async move {
             let root = ctx::test_root(&clock);
@@ -375,6 +388,30 @@ impl Cluster {
         for i in crashed {
             self.crash(i, "inside durable write");
         }
+        // Replica snapshots (hook H3) of live incarnations.
+        let snaps: Vec<bft::verif::Snapshot> = std::mem::take(&mut *self.snaps.borrow_mut());
+        for s in snaps {
+            let Some(i) = self.hub.committee.idx(&s.key) else { continue };
+            let Some(live) = &self.nodes[i].live else { continue };
+            let is_live = live
+                .mgr
+                .lock()
+                .unwrap()
+                .as_ref()
+                .is_some_and(|m| Arc::as_ptr(m) as usize == s.engine_id);
+            if !is_live {
+                continue;
+            }
+            let durable = {
+                let st = self.nodes[i].store.lock().unwrap();
+                let validator::ReplicaState::V2(d) = st.disk.replica_state();
+                d
+            };
+            let inc = live.inc;
+            self.nodes[i].view = Some(s.view.0);
+            self.nodes[i].deadline = s.view_timeout;
+            self.hub.on_snapshot(i, inc, &s, &durable);
+        }
         for i in 0..self.n() {
             // Discard whatever dying incarnations still say.
             for d in &mut self.nodes[i].dying {
@@ -399,6 +436,7 @@ impl Cluster {
                     for m in msgs {
                         self.hub.ev(format!("n{i}.{inc} -> {}", describe(&m)));
                         self.hub.on_outbound(i, inc, &m, &durable);
+                        self.hub.check_self_justifying(i, inc, &m, self.nodes[i].view);
                         self.adversary.observe(&m);
                         for to in 0..self.n() {
                             if self.is_byz(to) {
@@ -796,10 +834,9 @@ pub fn gen_cfg(seed: u64, profile: Profile) -> Cfg {
             faults.byz = rng.gen_range(3..25);
         }
     }
-    let n_actions = match profile {
-        Profile::Small => rng.gen_range(150..400),
-        _ => rng.gen_range(300..900),
-    };
+    // A view costs about 3 n^2 message deliveries; aim at 5..25 views.
+    let nn = (n * n).max(4);
+    let n_actions = (rng.gen_range(8..30) * nn).clamp(100, 1600);
     Cfg {
         seed,
         weights,
@@ -832,96 +869,139 @@ pub fn gen_plan(cfg: &Cfg) -> Vec<Action> {
     let mut rng = kit::stream(cfg.seed, "plan");
     let n = cfg.weights.len() as u32;
     let f = &cfg.faults;
-    let mut plan = vec![];
-    // Weighted menu.
-    let mut menu: Vec<(u32, u8)> = vec![
-        (40, 0),  // deliver oldest-ish
-        (25, 1),  // deliver burst to a node
-        (4, 2),   // tick all
-        (f.reorder, 3),
-        (f.drop, 4),
-        (f.dup, 5),
-        (f.clock, 6),
-        (f.crash, 7),
-        (f.crash_in_write, 8),
-        (f.crash + f.crash_in_write + f.disk_error, 9), // restart
-        (f.partition, 10),
-        (f.partition * 2, 11), // heal
-        (if cfg.persist_now { 0 } else { 22 }, 12),
-        (f.disk_error, 13),
-        (f.sync, 14),
-        (f.byz, 15),
-        (f.disk_error, 16),
-        (f.crash.min(3), 17),
-    ];
-    menu.retain(|(w, _)| *w > 0);
-    let total: u32 = menu.iter().map(|(w, _)| *w).sum();
-    for _ in 0..cfg.n_actions {
-        let mut x = rng.gen_range(0..total);
-        let mut kind = 0;
-        for (w, k) in &menu {
-            if x < *w {
-                kind = *k;
-                break;
-            }
-            x -= *w;
-        }
-        let a = match kind {
-            0 => Action::Deliver { k: rng.gen_range(0..3) },
-            1 => Action::DeliverTo { to: rng.gen_range(0..n), n: rng.gen_range(1..12) },
-            2 => Action::Tick {
-                node: n,
-                ms: if rng.gen_range(0..100) < 20 {
-                    (cfg.view_timeout_ms as u32) * rng.gen_range(100..=130) / 100
+    let len = cfg.n_actions;
+    let vt = cfg.view_timeout_ms as u32;
+    // 1. The benign backbone: deliveries (mostly oldest first), bursts, small and large ticks.
+    let reorder_pct = f.reorder.min(60);
+    let mut plan: Vec<Action> = (0..len)
+        .map(|_| match rng.gen_range(0..100) {
+            0..=49 => Action::Deliver {
+                k: if rng.gen_range(0..100) < reorder_pct { rng.gen() } else { rng.gen_range(0..3) },
+            },
+            50..=87 => Action::DeliverTo { to: rng.gen_range(0..n), n: rng.gen_range(1..12) },
+            88..=96 => Action::Tick { node: n, ms: vt * rng.gen_range(1..=8) / 100 },
+            _ => {
+                if rng.gen_range(0..100) < 25 {
+                    Action::Tick { node: n, ms: vt * rng.gen_range(100..=130) / 100 }
                 } else {
-                    (cfg.view_timeout_ms as u32) * rng.gen_range(2..=35) / 100
-                },
-            },
-            3 => Action::Deliver { k: rng.gen() },
-            4 => Action::Drop { k: rng.gen() },
-            5 => Action::Dup { k: rng.gen() },
-            6 => Action::Tick {
-                node: rng.gen_range(0..n),
-                ms: (cfg.view_timeout_ms as u32) * rng.gen_range(1..=30) / 10,
-            },
-            7 => Action::Crash { node: rng.gen_range(0..n) },
-            8 => Action::ArmWriteFault {
-                node: rng.gen_range(0..n),
-                k: rng.gen_range(0..6),
-                applied: rng.gen(),
-                error: false,
-            },
-            9 => Action::Restart { node: rng.gen_range(0..n) },
-            10 => Action::Cut { mask: rng.gen_range(1..(1u32 << n).max(2)) },
-            11 => Action::Heal,
-            12 => Action::Persist { node: rng.gen_range(0..2 * n) },
-            13 => Action::ArmWriteFault {
-                node: rng.gen_range(0..n),
-                k: rng.gen_range(0..6),
-                applied: false,
-                error: true,
-            },
-            14 => Action::Sync { to: rng.gen_range(0..n), off: rng.gen_range(0..3) },
-            15 => Action::Byz {
-                kind: rng.gen_range(0..20),
-                a: rng.gen(),
-                b: rng.gen(),
-                c: rng.gen(),
-            },
-            16 => Action::FailSetState { node: rng.gen_range(0..n), n: rng.gen_range(1..3) },
-            17 => Action::Stop { node: rng.gen_range(0..n) },
-            _ => unreachable!(),
-        };
-        plan.push(a);
-        // How long tasks run before the next external action.
+                    Action::Tick { node: n, ms: vt * rng.gen_range(10..=40) / 100 }
+                }
+            }
+        })
+        .collect();
+    // 2. Faults: a number of occurrences per enabled class, inserted at random positions.
+    //    Intensities are small numbers per run so that the system makes progress in between.
+    let mut extra: Vec<(usize, Action)> = vec![];
+    let pos = |rng: &mut rand_chacha::ChaCha8Rng| rng.gen_range(0..len.max(1));
+    let count = |rng: &mut rand_chacha::ChaCha8Rng, level: u32, per_100: u32| -> usize {
+        if level == 0 {
+            0
+        } else {
+            let max = (len as u32 * per_100 * level / 1000).max(1);
+            rng.gen_range(1..=max) as usize
+        }
+    };
+    // level is 1..=12-ish; per_100 = occurrences per 100 actions at level 10.
+    for _ in 0..count(&mut rng, f.drop, 4) {
+        extra.push((pos(&mut rng), Action::Drop { k: rng.gen() }));
+    }
+    for _ in 0..count(&mut rng, f.dup, 4) {
+        extra.push((pos(&mut rng), Action::Dup { k: rng.gen() }));
+    }
+    for _ in 0..count(&mut rng, f.clock, 2) {
+        extra.push((
+            pos(&mut rng),
+            Action::Tick { node: rng.gen_range(0..n), ms: vt * rng.gen_range(1..=30) / 10 },
+        ));
+    }
+    if f.partition > 0 {
+        for _ in 0..rng.gen_range(1..=f.partition.min(3)) {
+            let at = pos(&mut rng);
+            extra.push((at, Action::Cut { mask: rng.gen_range(1..(1u32 << n).max(2)) }));
+            if rng.gen_range(0..100) < 90 {
+                extra.push((at + rng.gen_range(5..200), Action::Heal));
+            }
+        }
+    }
+    if f.crash > 0 {
+        for _ in 0..rng.gen_range(1..=f.crash.min(4)) {
+            let at = pos(&mut rng);
+            let node = rng.gen_range(0..n);
+            extra.push((at, Action::Crash { node }));
+            if rng.gen_range(0..100) < 85 {
+                extra.push((at + rng.gen_range(1..120), Action::Restart { node }));
+            }
+        }
+        if rng.gen_range(0..100) < 40 {
+            let at = pos(&mut rng);
+            let node = rng.gen_range(0..n);
+            extra.push((at, Action::Stop { node }));
+            extra.push((at + rng.gen_range(1..120), Action::Restart { node }));
+        }
+    }
+    if f.crash_in_write > 0 {
+        for _ in 0..rng.gen_range(1..=f.crash_in_write.min(4)) {
+            let at = pos(&mut rng);
+            let node = rng.gen_range(0..n);
+            extra.push((
+                at,
+                Action::ArmWriteFault { node, k: rng.gen_range(0..6), applied: rng.gen(), error: false },
+            ));
+            if rng.gen_range(0..100) < 85 {
+                extra.push((at + rng.gen_range(5..150), Action::Restart { node }));
+            }
+        }
+    }
+    if f.disk_error > 0 {
+        for _ in 0..rng.gen_range(1..=f.disk_error.min(2)) {
+            let at = pos(&mut rng);
+            let node = rng.gen_range(0..n);
+            if rng.gen() {
+                extra.push((at, Action::ArmWriteFault { node, k: rng.gen_range(0..6), applied: false, error: true }));
+            } else {
+                extra.push((at, Action::FailSetState { node, n: rng.gen_range(1..3) }));
+            }
+            extra.push((at + rng.gen_range(5..150), Action::Restart { node }));
+        }
+    }
+    for _ in 0..count(&mut rng, f.sync, 3) {
+        extra.push((pos(&mut rng), Action::Sync { to: rng.gen_range(0..n), off: rng.gen_range(0..3) }));
+    }
+    for _ in 0..count(&mut rng, f.byz, 6) {
+        extra.push((
+            pos(&mut rng),
+            Action::Byz { kind: rng.gen_range(0..20), a: rng.gen(), b: rng.gen(), c: rng.gen() },
+        ));
+    }
+    if !cfg.persist_now {
+        for _ in 0..(len / 6).max(4) {
+            extra.push((pos(&mut rng), Action::Persist { node: rng.gen_range(0..2 * n) }));
+        }
+    }
+    // Stable merge by position (ties keep generation order).
+    extra.sort_by_key(|(p, _)| *p);
+    let mut merged = Vec::with_capacity(plan.len() + extra.len());
+    let mut e = extra.into_iter().peekable();
+    for (i, a) in plan.drain(..).enumerate() {
+        while e.peek().is_some_and(|(p, _)| *p <= i) {
+            merged.push(e.next().unwrap().1);
+        }
+        merged.push(a);
+    }
+    merged.extend(e.map(|(_, a)| a));
+    // 3. After every action tasks run: to quiescence, or (sometimes) only a few steps, so that
+    //    the next external action lands in the middle of message processing.
+    let mut out = Vec::with_capacity(merged.len() * 2);
+    for a in merged {
+        out.push(a);
         let steps = if f.short_steps > 0 && rng.gen_range(0..100) < f.short_steps {
             rng.gen_range(1..12)
         } else {
             0
         };
-        plan.push(Action::Run { steps });
+        out.push(Action::Run { steps });
     }
-    plan
+    out
 }
 
 /// Summary of one run.
@@ -946,8 +1026,118 @@ pub struct RunStats {
     pub harness_error: Option<String>,
 }
 
-/// C06: the synchronous suffix.  Placeholder until the liveness oracle is written.
+/// Number of views with a correct leader, entered by every correct node during the fair
+/// suffix, within which every correct node must have committed a new block (C06).
+pub const LIVENESS_VIEWS: u64 = 5;
+
+/// C06: the fair synchronous suffix and its progress oracle.
+///
+/// All correct nodes run, links are healed, every message between correct nodes is delivered
+/// within one round (= timeout/10 of simulated time) in random order, block sync serves any
+/// block some correct node committed, storage answers at once, clocks run at the same rate.
+/// Byzantine validators stay silent or keep misbehaving (without flooding).
 pub async fn liveness_suffix(cl: &mut Cluster) {
+    let mut rng = kit::stream(cl.cfg.seed, "suffix");
     cl.enter_suffix();
+    // Wait for gracefully stopping instances to exit, then start whoever is down.
     cl.run_steps(50_000).await;
+    for i in 0..cl.n() {
+        if !cl.is_byz(i) && cl.nodes[i].live.is_none() {
+            cl.start(i);
+        }
+    }
+    cl.run_steps(50_000).await;
+    let correct: Vec<usize> = cl.hub.committee.correct().collect();
+    let h0: Vec<u64> = correct.iter().map(|i| cl.nodes[*i].store.lock().unwrap().disk.next().0).collect();
+    let v0 = correct.iter().filter_map(|i| cl.nodes[*i].view).max().unwrap_or(0);
+    let byz_active = rng.gen_range(0..100) < 50;
+    let round_ms = (cl.cfg.view_timeout_ms as u64 / 10).max(1);
+    let schedule = cl.hub.committee.schedule.clone();
+    let is_correct_leader = |v: u64, cl: &Cluster| {
+        cl.hub
+            .committee
+            .idx(&schedule.view_leader(validator::ViewNumber(v)))
+            .is_some_and(|l| !cl.cfg.byz[l])
+    };
+    let mut last_min_view = 0u64;
+    let mut last_advance_round = 0u64;
+    let max_rounds = 10 * (LIVENESS_VIEWS + 2 * cl.n() as u64 * cl.cfg.frequency.max(1) + 10) * 3;
+    for round in 0..max_rounds {
+        if cl.hub.has_violation() {
+            return;
+        }
+        // Everything in flight is delivered, in random order.
+        let mut msgs = std::mem::take(&mut cl.inflight);
+        msgs.shuffle(&mut rng);
+        for m in msgs {
+            cl.deliver_msg(m.to, Some(m.from), m.msg);
+            if rng.gen_range(0..100) < 30 {
+                cl.run_steps(50_000).await;
+            }
+        }
+        cl.run_steps(50_000).await;
+        if byz_active && rng.gen_range(0..100) < 40 {
+            // No floods (kind 15) during the suffix.
+            let kind = rng.gen_range(0..15);
+            let a = Action::Byz { kind, a: rng.gen(), b: rng.gen(), c: rng.gen() };
+            cl.exec(&a).await;
+            cl.run_steps(50_000).await;
+        }
+        // Block sync serves whatever some correct node has.
+        for &i in &correct {
+            cl.sync_block(i, 0);
+        }
+        cl.run_steps(50_000).await;
+        cl.tick(None, round_ms);
+        cl.run_steps(50_000).await;
+        // Oracle.
+        let grown = correct
+            .iter()
+            .zip(&h0)
+            .all(|(i, h)| cl.nodes[*i].store.lock().unwrap().disk.next().0 > *h);
+        if grown {
+            cl.hub.probe("suffix_progress");
+            cl.hub.ev(format!("suffix: every correct node committed a new block after {round} rounds"));
+            return;
+        }
+        let min_view = correct.iter().map(|i| cl.nodes[*i].view.unwrap_or(0)).min().unwrap_or(0);
+        if min_view > last_min_view {
+            last_min_view = min_view;
+            last_advance_round = round;
+        }
+        // Views V0+1 ..= min_view-1 have been entered *and left* by every correct node while the
+        // network was synchronous.
+        let done_views = (v0 + 1..min_view).filter(|v| is_correct_leader(*v, cl)).count() as u64;
+        if done_views >= LIVENESS_VIEWS {
+            let stuck: Vec<String> = correct
+                .iter()
+                .zip(&h0)
+                .filter(|(i, h)| cl.nodes[**i].store.lock().unwrap().disk.next().0 <= **h)
+                .map(|(i, _)| format!("n{i}"))
+                .collect();
+            cl.hub.violation(
+                "C06",
+                "no_commit_in_fair_suffix",
+                format!(
+                    "{done_views} views with correct leaders (views {}..{}) passed in the synchronous suffix, yet {} did not commit a new block",
+                    v0 + 1,
+                    min_view - 1,
+                    stuck.join(",")
+                ),
+            );
+            return;
+        }
+        if round - last_advance_round > 45 {
+            cl.hub.violation(
+                "C06",
+                "views_stuck_in_fair_suffix",
+                format!(
+                    "no correct node left view {min_view} for {} rounds (4.5 view timeouts) of the synchronous suffix",
+                    round - last_advance_round
+                ),
+            );
+            return;
+        }
+    }
+    cl.hub.probe("suffix_inconclusive");
 }
